@@ -4,12 +4,19 @@
 // client sent afterwards.
 //
 // Behaviour: {"ext":"none|default|all|allrev",
-//             "steps":[{"a":"Recv","t":<type kind>,"p":<payload kind>,"f":<sender class>,"k":<id kind>},...]}
-// Trace line (see spec/IqDispatchTrace.tla):
+//             "steps":[{"a":"Recv","t":<type kind>,"p":<payload kind>,"f":<sender class>,"k":<id kind>} |
+//                      {"a":"SendRequest","peer":<sender class>},...]}
+// SendRequest: the client issues a tracked request of its own (real QXmppClient::sendIq, disco#info get, to the
+// JID of the sender class `peer`) that stays unanswered; a later Recv with id kind "pending" carries its id.
+// Within one execution a sender class always maps to the same JID (so "from the peer asked" is meaningful).
+// Trace lines (see spec/IqDispatchTrace.tla):
+//   {"e":"SendRequest","peer":..,"x":{"id":..,"to":..},"nsent":n}
 //   {"e":"Recv","t":..,"p":..,"f":..,"k":..,
 //    "x":{"id":..,"from":..,"own":B,"domain":D,"type":<concrete type attribute, "" = absent>},
 //    "out":[{"type":"result|error","id":..,"to":..,"cond":..}...],   IQ result/error stanzas sent
 //    "oreq":n,      other stanzas sent (IQ get/set of a manager's own, messages, presences)
+//    "pend":bool,   a tracked request of the client was outstanding when the IQ was injected
+//    "tdone":n,     how often the continuation of that request ran while the IQ was handled
 //    "closed":bool} the client reported a stream error (it closes the stream)
 #include "fixture.h"
 #include "qxv.h"
@@ -344,8 +351,65 @@ void runBehaviour(Ctx &ctx, const QString &caseId, const QJsonObject &b)
 
     int n = 0;
     QString lastId;
+    // the client's own outstanding tracked request
+    QString pendId;          // id of the last request issued ("" = none issued yet)
+    bool pendOutstanding = false;
+    int taskRuns = 0;        // continuation runs of the tracked request(s), total
+    // sender class -> JID, fixed for the execution at first use
+    QMap<QString, QString> jids;
+    auto jidOf = [&](const QString &f) -> QString {
+        auto it = jids.find(f);
+        if (it != jids.end()) {
+            return *it;
+        }
+        QString j;
+        if (f == "OwnBare") {
+            j = B;
+        } else if (f == "OwnFullSelf") {
+            j = B + "/" + R;
+        } else if (f == "OwnFullOther") {
+            j = B + "/" + (r.n(2) ? QString("other") : r.word());
+        } else if (f == "Domain") {
+            j = D;
+        } else if (f == "Contact") {
+            j = r.n(2) ? QString("alice@example.net/phone") : r.word() + "@" + r.word() + ".example/" + r.word();
+        } else if (f == "ContactBare") {
+            j = r.n(2) ? QString("alice@example.net") : r.word() + "@" + r.word() + ".example";
+        } else {
+            fprintf(stderr, "iqin: unknown sender class %s\n", qPrintable(f));
+            exit(2);
+        }
+        jids.insert(f, j);
+        return j;
+    };
     for (const auto &sv : steps) {
         const auto s = sv.toObject();
+        if (s["a"].toString() == "SendRequest") {
+            const auto peer = s["peer"].toString();
+            const QString to = jidOf(peer);
+            // QXmpp numbers its ids qxmpp1, qxmpp2, ...: the id a peer running QXmpp would use as well
+            pendId = QString("qxmpp%1").arg(1 + r.n(40));
+            QXmppDiscoveryIq req;
+            req.setType(QXmppIq::Get);
+            req.setQueryType(QXmppDiscoveryIq::InfoQuery);
+            req.setId(pendId);
+            // a request to the own account may be sent without `to` (the stream then expects the own bare JID)
+            if (!(peer == "OwnBare" && r.n(2))) {
+                req.setTo(to);
+            }
+            c.takeSent();
+            const int runs0 = taskRuns;
+            c.sendIq(std::move(req)).then(&c, [&taskRuns](QXmppClient::IqResult &&) { ++taskRuns; });
+            QCoreApplication::processEvents();
+            pendOutstanding = taskRuns == runs0;  // (it completes at once only if it could not be issued)
+            const auto sentNow = c.takeSent();
+            const int nsent = sentNow.size();
+            if (!sentNow.isEmpty()) {
+                pendId = parseSent(sentNow.first()).id;  // the id that really went out
+            }
+            ctx.emit_({ { "e", "SendRequest" }, { "peer", peer }, { "x", QJsonObject { { "id", pendId }, { "to", to } } }, { "nsent", nsent } });
+            continue;
+        }
         const auto t = s["t"].toString(), p = s["p"].toString(), f = s["f"].toString(), k = s["k"].toString();
         ++n;
         // concrete type attribute
@@ -363,21 +427,8 @@ void runBehaviour(Ctx &ctx, const QString &caseId, const QJsonObject &b)
         bool hasFrom = true;
         if (f == "Empty") {
             hasFrom = r.n(2) == 0;
-        } else if (f == "OwnBare") {
-            from = B;
-        } else if (f == "OwnFullSelf") {
-            from = B + "/" + R;
-        } else if (f == "OwnFullOther") {
-            from = B + "/" + (r.n(2) ? QString("other") : r.word());
-        } else if (f == "Domain") {
-            from = D;
-        } else if (f == "Contact") {
-            from = r.n(2) ? QString("alice@example.net/phone") : r.word() + "@" + r.word() + ".example/" + r.word();
-        } else if (f == "ContactBare") {
-            from = r.n(2) ? QString("alice@example.net") : r.word() + "@" + r.word() + ".example";
         } else {
-            fprintf(stderr, "iqin: unknown sender class %s\n", qPrintable(f));
-            exit(2);
+            from = jidOf(f);
         }
         // concrete id
         QString id;
@@ -387,11 +438,16 @@ void runBehaviour(Ctx &ctx, const QString &caseId, const QJsonObject &b)
             id = lastId.isEmpty() ? QString("q%1-first").arg(n) : lastId;
         } else if (k == "empty") {
             id = QString();
+        } else if (k == "pending") {
+            // the id of the client's own (last) tracked request; if it never issued one, an id of that shape
+            id = pendId.isEmpty() ? QString("qxmpp%1").arg(1 + r.n(40)) : pendId;
         } else {
             fprintf(stderr, "iqin: unknown id kind %s\n", qPrintable(k));
             exit(2);
         }
-        lastId = id;
+        if (k != "pending") {
+            lastId = id;  // "dup" repeats the previous id that was not the pending request's (that case is "pending")
+        }
 
         QString payload = payloadXml(p, r);
         if (t == "error" && p != "none" && p != "text" && !p.contains("error", Qt::CaseInsensitive)) {
@@ -410,6 +466,8 @@ void runBehaviour(Ctx &ctx, const QString &caseId, const QJsonObject &b)
         xml += " to=\"" + esc(B + "/" + R) + "\">" + payload + "</iq>";
 
         c.takeSent();
+        const bool hadPending = pendOutstanding;
+        const int runsBefore = taskRuns;
         c.inject(xml);
         // quiescence: nothing in this in-memory client depends on sockets or timers; drain posted events
         for (int i = 0; i < 4; i++) {
@@ -429,7 +487,11 @@ void runBehaviour(Ctx &ctx, const QString &caseId, const QJsonObject &b)
         }
         ctx.emit_({ { "e", "Recv" }, { "t", t }, { "p", p }, { "f", f }, { "k", k },
                     { "x", QJsonObject { { "id", id }, { "from", from }, { "own", B }, { "domain", D }, { "type", type }, { "hastype", hasType } } },
-                    { "out", out }, { "oreq", oreq }, { "closed", closed }, { "raw", xml } });
+                    { "out", out }, { "oreq", oreq }, { "closed", closed }, { "pend", hadPending },
+                    { "tdone", taskRuns - runsBefore }, { "raw", xml } });
+        if (taskRuns > runsBefore) {
+            pendOutstanding = false;
+        }
         if (closed) {
             break;  // the client gave up on this stream: nothing more can be delivered on it
         }
